@@ -81,6 +81,19 @@ def tasks(tier):
                    durs=[0, 1], strat_menu=[1, 9], strat_free=True, max_unknown=None,
                    sleeper="policy" if "Set" in e else "call")
         out.append({"family": "delay-same-object", "cfg": cfg, "entry": e, "bound": 1, "weight": 3})
+    # strategies that are falsy callable objects (an empty "delay schedule" that is callable)
+    for tb, e in itertools.product([{"default": "ctx", "per": {"T": "ctx", "R": "ctx"}},
+                                    {"default": None, "per": {"T": "ctx", "U": "ctx"}}], Q4):
+        cfg = dict(M=3, strat=tb, alphabet=["ok", "x:T", "x:R+ra", "r:T", "x:U"], strat_falsy=True,
+                   strat_menu=[1, 9], strat_free=True, max_unknown=None, deadline=6)
+        out.append({"family": "delay-falsy-strategy", "cfg": cfg, "entry": e, "bound": 0})
+    # per-call sleeper / before_sleep through the Policy layer
+    for tb, e in itertools.product(TABLES[:2], ["Policy.execute", "RetryPolicy.execute", "Policy.call",
+                                                "AsyncPolicy.execute", "AsyncRetryPolicy.call", "Policy.context"]):
+        cfg = dict(M=3, strat=tb, alphabet=["ok", "x:T", "r:T"], strat_menu=[1, 9], strat_free=True,
+                   max_unknown=None, deadline=6, sleeper="call", before_sleep="call", handler="call",
+                   handler_menu=["SLEEP"])
+        out.append({"family": "delay-policy-layer", "cfg": cfg, "entry": e, "bound": 0})
     # an attempt fails because its on_attempt_start hook raised: whatever the entry point makes of
     # that, the strategy consultations of one run carry the attempt numbers 1, 2, 3, ... in order
     for idx, e in itertools.product([0, 1, 2], Q4 + ["Policy.execute", "RetryPolicy.execute"]):
